@@ -16,6 +16,7 @@ RULE = ('gcirc: Hypothesis point pairs built as (point, bearing, separation) wit
         'values within 1e-8 deg of them, RA/Dec form.  Non-trivial = separation < 1 arcsec or > 179 deg, |Dec| > 89, stripe with non-zero '
         'inclination, angles within 0.01 deg of a pole.')
 RULE += '  Also: broadcasting calls of gcirc (point vs vector, column vs row, RA array with scalar Dec), 2-D coordinate arrays and positions with a distance for the mu/nu transform.'
+RULE += ' Round 5: unsigned RA / signed Dec integer arrays for gcirc.'
 ASSUMPTIONS = ['gcirc tolerance = 1e-6 relative + 1e-9 arcsec absolute (the absolute floor is the rounding of coordinates of order 1 rad '
                'when they are converted to radians in double precision, which no double-precision implementation can avoid)',
                'numpy longdouble is the x87 80-bit type on this platform (eps 1.1e-19); checked at start-up',
